@@ -220,6 +220,23 @@ fn sleeper(id: int) {
 			m.finals = append(m.finals, f)
 		}
 		tail()
+	case 9:
+		// every core counts in a global of its own: nobody else writes it, so the final value is exact
+		for i := 0; i < n; i++ {
+			fmt.Fprintf(&b, "let own%d = 0;\n", i)
+		}
+		cnt := 20 + 15*iters
+		for i := 0; i < n; i++ {
+			fmt.Fprintf(&b, "fn ow%d(n: int) {\n    for i in 0..n { own%d = own%d + 1; }\n    println(\"ow\", %d, own%d);\n}\n", i, i, i, i, i)
+		}
+		b.WriteString("fn main() {\n")
+		for i := 0; i < n; i++ {
+			fmt.Fprintf(&b, "    spawn ow%d(%d);\n", i, cnt)
+			f := fmt.Sprintf("ow %d %d", i, cnt)
+			add(f)
+			m.finals = append(m.finals, f)
+		}
+		tail()
 	case 8:
 		// arguments taken from object members and list elements that the parent overwrites right after the spawn
 		b.WriteString(`fn mw(id: int, a: int, s: str, e: int) {
@@ -455,7 +472,7 @@ func planC17(t *testing.T, tier string, seed uint64) ([]RunSpec, error) {
 		sweepCap = 0
 	}
 	idx := 0
-	for shape := 0; shape <= 8; shape++ {
+	for shape := 0; shape <= 9; shape++ {
 		for _, n := range ns {
 			for late := 0; late < 3; late++ {
 				base := RunSpec{Property: "C17", Workload: fmt.Sprintf("c17/shape%d", shape), Params: map[string]int{"shape": shape, "n": n, "iters": 1 + (n+late)%3, "main_late": late}}
